@@ -59,6 +59,19 @@ def product():
                 "func f() { try { 5; throw 1 } catch e { e; return } }\nf()", "func f() { defer func() { 3 }(); 4; return }\nf()"):
         out.append({"src": src, "field": "result", "want": "[nil,i:1]" if src.endswith("1]") else "nil",
                     "why": "a bare return yields nil whatever the statement before it evaluated to"})
+    # switch runs exactly the first equal case - also when that case has an empty body - else the default, wherever it stands
+    out.append({"src": "r = []; for i in [1, 2, 3] { switch i {\ncase 1:\ndefault: r += i\n} }; r", "field": "result", "want": "[i:2,i:3]",
+                "why": "a matched case with an empty body runs nothing, not the default"})
+    out.append({"src": "func sign(x) { switch x {\ncase 0:\ndefault: return \"nonzero\"\n}; return \"zero\" }\n[sign(0), sign(5)]", "field": "result",
+                "want": "[s:7a65726f,s:6e6f6e7a65726f]", "why": "a matched case with an empty body does not reach a return in the default"})
+    out.append({"src": "r = []; for i in [1, 2, 3] { switch i {\ncase 1:\ncase 2: r += 20\ndefault: continue\n}; r += i }; r", "field": "result",
+                "want": "[i:1,i:20,i:2]", "why": "a matched case with an empty body does not run a continue in the default"})
+    out.append({"src": "r = []; for i in [1, 2, 3] { switch i {\ndefault: r += 0\ncase 2: r += 2\n} }; r", "field": "result", "want": "[i:0,i:2,i:0]",
+                "why": "a default placed before the cases runs only when no case is equal"})
+    out.append({"src": "r = []; for i in [1, 2, 3] { switch i {\ncase 1: r += 1\ndefault: r += 0\ncase 3: r += 3\n} }; r", "field": "result", "want": "[i:1,i:0,i:3]",
+                "why": "a default placed between the cases runs only when no case is equal"})
+    out.append({"src": "r = []; for i in [1, 2] { switch i {\ncase 5: r += 5\n}; r += i }; r", "field": "result", "want": "[i:1,i:2]",
+                "why": "a switch without an equal case and without default runs nothing"})
     out.append({"src": "func f() { for k in {\"a\": 5} { return k + \"!\" }; return \"none\" }\nf()", "field": "result", "want": "s:6121",
                 "why": "return yields its value from a key-only for-in over a map"})
     out.append({"src": "func f() { x = 0; for x < 3 { x = x + 1; if x == 2 { return x * 10 } }; return -1 }\nf()", "field": "result", "want": "i:20",
